@@ -7,6 +7,7 @@ CONSTANTS
   CacheWidths = TRUE
   SharedEqualRecords = FALSE
   ClassLevelOption = FALSE
+  StoreBeforeValidate = FALSE
   Emit = FALSE
   EmitOff = 0
 SPECIFICATION Spec
